@@ -26,10 +26,10 @@ Init == /\ pts = [i \in Lv |-> {}] /\ rds = [i \in Lv |-> {}] /\ nw = 0 /\ seq =
 
 (* ---- set form of the level invariant (files are a partition of a level) ---- *)
 SeqsAtS(Px, T, k) == {e[2] : e \in {x \in Px : x[1] = k}} \cup {t[3] : t \in {x \in T : x[1] <= k /\ k < x[2]}}
-LInv(PP, TT) == /\ \A i, j \in Lv : i < j => \A k \in UKeys :
+LOrder(PP, TT) == \A i, j \in Lv : i < j => \A k \in UKeys :
                       \A si \in SeqsAtS(PP[i], TT[i], k), sj \in SeqsAtS(PP[j], TT[j], k) : si > sj
-                /\ \A i, j \in Lv : \A e1 \in PP[i], e2 \in PP[j] : (e1[1] = e2[1] /\ e1[2] = e2[2]) => e1 = e2
-Pre(PP, TT) == Bug = "NoLevelInvariant" \/ LInv(PP, TT)
+LDistinct(PP) == \A i, j \in Lv : \A e1 \in PP[i], e2 \in PP[j] : (e1[1] = e2[1] /\ e1[2] = e2[2]) => e1 = e2
+Pre(PP, TT) == LDistinct(PP) /\ (Bug = "NoLevelInvariant" \/ LOrder(PP, TT))
 
 (* writes arrive newest first; a write may share the sequence number of the previous *)
 (* one (ingested tables give all their keys one sequence number)                     *)
@@ -64,12 +64,17 @@ Form(sps) == [i \in Lv |-> LevelFiles(pts[i], rds[i], sps[i])]
 Cur == Form(splits)
 ML == MergedVisible(Cur, snap)
 
-Finish(sps, sn, lo, hi) ==
-  /\ phase = "build" /\ lo < hi /\ (Emit => nw = MaxW)
-  /\ splits' = sps /\ snap' = sn /\ it' = NewIt(lo, hi)
-  /\ phase' = (IF Emit THEN "pick" ELSE "done")
-  /\ hist' = <<[op |-> "levels", snap |-> sn, levels |-> Form(sps)], [op |-> "open", h |-> 1, t |-> "pt", lo |-> lo, hi |-> hi]>>
-  /\ UNCHANGED <<pts, rds, nw, seq, nops>>
+Finish(sps, sn) ==
+  /\ phase = "build" /\ (Emit => nw = MaxW)
+  /\ splits' = sps /\ snap' = sn
+  /\ phase' = (IF Emit THEN "open" ELSE "done")
+  /\ hist' = <<[op |-> "levels", snap |-> sn, levels |-> Form(sps)]>>
+  /\ UNCHANGED <<pts, rds, nw, seq, nops, it>>
+OpenIt(lo, hi) ==
+  /\ phase = "open" /\ lo < hi
+  /\ it' = NewIt(lo, hi) /\ phase' = "pick"
+  /\ hist' = Append(hist, [op |-> "open", h |-> 1, t |-> "pt", lo |-> lo, hi |-> hi])
+  /\ UNCHANGED <<pts, rds, nw, seq, splits, snap, nops>>
 
 RelEnabled == \E o \in RelOps : Enabled(it, o, 0)
 Pick == /\ phase = "pick" /\ nops < MaxOps
@@ -86,8 +91,8 @@ Op(o, k) ==
 
 Next == \/ \E i \in Lv, k \in UKeys, kd \in Kinds, s \in 1..(MaxW + 1) : WritePoint(i, k, kd, s)
         \/ \E i \in Lv, a \in UKeys, b \in 1..R, s \in 1..(MaxW + 1) : WriteRd(i, a, b, s)
-        \/ \E sps \in [Lv -> 0..(R - 1)], sn \in 1..(MaxW + 2), lo \in 0..(R - 1), hi \in 1..R :
-              ((~Emit) => (lo = 0 /\ hi = R)) /\ Finish(sps, sn, lo, hi)
+        \/ \E sps \in [Lv -> {0, R \div 3, R \div 2}], sn \in (IF Emit THEN 1..(MaxW + 2) ELSE {2, MaxW + 2}) : Finish(sps, sn)
+        \/ \E lo \in 0..(R - 1), hi \in 1..R : OpenIt(lo, hi)
         \/ Pick
         \/ \E o \in {"first", "last", "next", "prev", "nextprefix"} : Op(o, 0)
         \/ \E o \in KeyOps, k \in 0..R : Op(o, k)
